@@ -58,8 +58,11 @@ func Replay(path, scratch string) int {
 		case "read":
 			e.Read(o.Off, o.Len)
 		case "snapshot":
-			n, _ := strconv.Atoi(strings.TrimPrefix(o.Name, "s"))
-			e.M.NextSnap = n
+			if n, err := strconv.Atoi(strings.TrimPrefix(o.Name, "s")); err == nil && n >= e.M.NextSnap {
+				e.M.NextSnap = n
+			} else {
+				e.ForceName = o.Name // a name used again after its first holder was deleted
+			}
 			e.Snapshot(o.User)
 		case "remove", "rawremove":
 			if i := e.M.Find(o.Name); i > 0 {
